@@ -147,6 +147,7 @@ func init() {
 			{Name: "sizes", TShards: 6, Run: c04Sizes},
 			{Name: "prefixes", Run: prefixUnit("bed", false, 0)},
 			{Name: "edges", Run: edgeUnit("bed")},
+			{Name: "lexicon", TShards: 4, Run: lexiconUnit("bed")},
 			{Name: "fieldlens", TShards: 2, Run: lengthUnit("bed")},
 			{Name: "parallel", Race: true, Run: codecParallel("bed")},
 			{Name: "histories", Run: codecHistories("bed")},
